@@ -275,6 +275,12 @@ type JobsResult struct {
 	Steps      int
 }
 
+// verifReattach does what RemoteJobManager.reattach does with its semaphore.
+func verifReattach(sem *MaxJobsSemaphore, md *Metadata) {
+	jm := &RemoteJobManager{jobSem: sem}
+	jm.reattach(md)
+}
+
 // VerifRunJobs executes sc under the scheduler.
 func VerifRunJobs(sc JobsScenario, prefix []int) (*vshim.Sched, *JobsResult) {
 	res := &JobsResult{}
@@ -369,6 +375,11 @@ func VerifRunJobs(sc JobsScenario, prefix []int) (*vshim.Sched, *JobsResult) {
 					a.verdict = 1
 				}
 				compare(fmt.Sprintf("after an acquire attempt for job %d by thread %d", a.j, harnessOf[tid]))
+			case "reattach":
+				// a job an earlier mrp submitted and which is still running
+				// takes its slot back
+				slots[cur[tid].j] = true
+				compare(fmt.Sprintf("after the re-attach of running job %d", cur[tid].j))
 			case "release":
 				delete(slots, cur[tid].j)
 				compare(fmt.Sprintf("after the release of job %d", cur[tid].j))
@@ -379,6 +390,36 @@ func VerifRunJobs(sc JobsScenario, prefix []int) (*vshim.Sched, *JobsResult) {
 					}
 				}
 				compare("after FindDone")
+			}
+		}
+		// re-attach: these jobs run on the cluster whether the semaphore
+		// knows them or not
+		for _, j := range sc.Reattach {
+			verifSetState(mds[j], LogFile) // running
+			submitted[j] = true
+			tid := vshim.Active().Cur()
+			cur[tid] = &attempt{j: j, nonblocking: true, active: true}
+			kind[tid] = "reattach"
+			verifReattach(sem, mds[j])
+			cur[tid].active = false
+			kind[tid] = "none"
+			if _, counted := sem.running[mds[j]]; !counted {
+				viol("job %d is running on the cluster when mrp re-attaches, but does not count against --maxjobs afterwards", j)
+			}
+		}
+		// re-attach: these jobs run on the cluster whether the semaphore
+		// knows them or not
+		for _, j := range sc.Reattach {
+			verifSetState(mds[j], LogFile) // running
+			submitted[j] = true
+			tid := vshim.Active().Cur()
+			cur[tid] = &attempt{j: j, nonblocking: true, active: true}
+			kind[tid] = "reattach"
+			verifReattach(sem, mds[j])
+			cur[tid].active = false
+			kind[tid] = "none"
+			if _, counted := sem.running[mds[j]]; !counted {
+				viol("job %d is running on the cluster when mrp re-attaches, but does not count against --maxjobs afterwards", j)
 			}
 		}
 		for i, ops := range sc.Threads {
@@ -433,6 +474,14 @@ func VerifRunJobs(sc JobsScenario, prefix []int) (*vshim.Sched, *JobsResult) {
 							kind[tid] = "release"
 							sem.Release(mds[o.J])
 						}
+						delete(submitted, o.J)
+					case "finish":
+						// a re-attached job ends on the cluster
+						vshim.Yield()
+						verifSetState(mds[o.J], CompleteFile)
+						cur[tid] = &attempt{j: o.J}
+						kind[tid] = "release"
+						sem.Release(mds[o.J])
 						delete(submitted, o.J)
 					case "cancel":
 						verifSetState(mds[o.J], Errors)
